@@ -649,6 +649,21 @@ private:
       // upper bound of the right argument so it cannot be a
       // widening.
 
+      // -- the intervals in the middle can be kept only while the
+      // right argument does not grow there. Keeping (or joining) new
+      // middle intervals at every step produces infinite ascending
+      // chains, e.g., [0,0] | [5,5+k] | [100,100] for k=1,2,... so
+      // we resort to the widening of the convex approximations.
+      for (unsigned int j = 1; j < o._list.size() - 1; j++) {
+        bool covered = false;
+        for (unsigned int i = 0; i < _list.size() && !covered; i++) {
+          covered = (o._list[j] <= _list[i]);
+        }
+        if (!covered) {
+          return dis_interval_t(widen_op.apply(approx(_list), approx(o._list)));
+        }
+      }
+
       // -- widen the extremes
       interval_t lb_widen = widen_op.apply(_list[0], o._list[0]);
       interval_t ub_widen =
@@ -668,9 +683,9 @@ private:
       //   }
       // }
 
-      // keep all the intervals, normalize will do the rest
+      // keep the intervals in the middle (they cover those of o),
+      // normalize will do the rest
       res.insert(res.end(), _list.begin() + 1, _list.end() - 1);
-      res.insert(res.end(), o._list.begin() + 1, o._list.end() - 1);
 
       res.push_back(ub_widen);
 
